@@ -2,6 +2,7 @@ package main
 
 import (
 	"fmt"
+	"strconv"
 	"strings"
 
 	"golang.org/x/tools/go/ssa"
@@ -60,7 +61,7 @@ func runC04(r *Run) {
 		r.Check(strings.HasSuffix(recv, ".NextRound") && allowedHR[FuncName(c.Fn)], "C04.1", "reset("+recv+")@"+FuncName(c.Fn), w.InstrPos(c.Instr), "only the next-round view may be reset, and only by the shift / swap")
 	}
 	if fn := w.Fn("tmi.kState.ShiftVotingToCommitting"); fn != nil {
-		a := w.A(fn)
+		a := w.AU(fn)
 		got := map[string]string{}
 		a.Instrs(func(in ssa.Instruction) {
 			st, ok := in.(*ssa.Store)
@@ -96,7 +97,7 @@ func runC04(r *Run) {
 		r.Fail("C04.1", "ShiftVotingToCommitting", "", "function not found")
 	}
 	if fn := w.Fn("tmi.kState.incrementVotingRound"); fn != nil {
-		a := w.A(fn)
+		a := w.AU(fn)
 		got := map[string]string{}
 		a.Instrs(func(in ssa.Instruction) {
 			if st, ok := in.(*ssa.Store); ok {
@@ -133,7 +134,7 @@ func runC04(r *Run) {
 
 	// ---- C04.4
 	if fn := w.Fn("tmi.kState.FindView"); fn != nil {
-		a := w.A(fn)
+		a := w.AU(fn)
 		for i, ret := range a.Returns() {
 			v := a.sh.Of(ret.Results[0]).String()
 			st := a.sh.Of(ret.Results[2]).String()
@@ -159,7 +160,7 @@ func runC04(r *Run) {
 		if fn == nil {
 			continue
 		}
-		a := w.A(fn)
+		a := w.AU(fn)
 		found, _ := a.IfEdges("(@tmi.kState.FindView($...)#2 == %tmi.ViewFound)", true, nil)
 		ord := Ord{}
 		a.Instrs(func(in ssa.Instruction) {
@@ -191,7 +192,7 @@ func runC04(r *Run) {
 
 	// ---- C04.6 predecessor hash comparison
 	if fn := w.Fn("tmmirror.Mirror.HandleProposedHeader"); fn != nil {
-		a := w.A(fn)
+		a := w.AU(fn)
 		cmp1, _ := a.IfEdges("@bytes.Equal($x,$y)", true, func(b Bind) bool {
 			s := b["$x"].String() + "|" + b["$y"].String()
 			return strings.Contains(s, "p2.Header.PrevBlockHash") && strings.Contains(s, ".PrevBlockHash") && strings.Count(s, "PrevBlockHash") >= 2 && strings.Contains(s, "PHCheck")
@@ -233,21 +234,60 @@ func runC07(r *Run) {
 			if fw.Kind != "store" || fw.Path[len(fw.Path)-1].Field != "ValidatorSet" {
 				continue
 			}
-			a := w.A(fw.Fn)
-			val := a.sh.Of(fw.Val).String()
+			// judged in the terms of the function that decides the commit: the shift helper has a single
+			// caller, so what it stores is what that caller hands it (whatever the helper's signature)
 			fnn := FuncName(fw.Fn)
 			con := fmt.Sprintf("write(%s)@%s", pathString(fw.Path), fnn)
-			ok := fnn == "tmi.kState.ShiftVotingToCommitting" && val == "p1.ValidatorSet"
-			r.Check(ok, "C07.1", con, w.InstrPos(fw.Instr), "validator set of a kernel view assigned from "+val)
+			owner := w.Owner(fw.Fn)
+			val := w.AU(owner).sh.Of(fw.Val)
+			ok := fnn == "tmi.kState.ShiftVotingToCommitting" && isCommittedNextValSet(val)
+			if !ok && fnn == "tmi.kState.ShiftVotingToCommitting" && owner == fw.Fn {
+				// several callers: the value is a parameter (or a field of one); every caller must pass the right set
+				if root, rest, isPar := paramRooted(val); isPar {
+					ok = true
+					callers := w.CallersOf(w.ProdFuncs(), fnn)
+					for _, cs := range callers {
+						arg := w.AU(w.Owner(cs.Fn)).sh.Of(CallArg(cs.Instr, root))
+						for _, f := range rest {
+							arg = mkFld(arg, f)
+						}
+						if !isCommittedNextValSet(arg) {
+							ok = false
+						}
+					}
+					ok = ok && len(callers) > 0
+				}
+			}
+			r.Check(ok, "C07.1", con, w.InstrPos(fw.Instr), "validator set of a kernel view assigned from "+truncate(val.String(), 160))
 		}
 	}
-	// shift argument (same obligation as C01.2 argument)
+	// shift argument (same obligation as C01.2 argument): every validator set handed to the shift
 	for _, cs := range w.CallersOf(w.ProdFuncs(), "tmi.kState.ShiftVotingToCommitting") {
-		a := w.A(cs.Fn)
-		arg := a.sh.Of(CallArg(cs.Instr, 1))
-		b, ok := Match("lit:tmi.nextHeightDetails{ValidatorSet:$ph.Header.NextValidatorSet,VotedHeader:$ph.Header,$...}", arg)
-		r.Check(ok && strings.Contains(b["$ph"].String(), ".Voting.RoundView.ProposedHeaders["), "C07.1", FuncName(cs.Fn)+"#shift(next-validators)", w.InstrPos(cs.Instr),
-			"the set for the next height is the NextValidatorSet of the very header being committed: "+truncate(arg.String(), 200))
+		a := w.AU(w.Owner(cs.Fn))
+		n, ok := 0, true
+		var shown []string
+		for i := 1; i < len(callCommon(cs.Instr).Args); i++ {
+			arg := a.sh.Of(CallArg(cs.Instr, i))
+			var sets []*Shape
+			if arg.K == "lit" {
+				for k, f := range arg.F {
+					if f == "ValidatorSet" {
+						sets = append(sets, arg.A[k])
+					}
+				}
+			} else if TypeName(callCommon(cs.Instr).Args[i].Type()) == "tmconsensus.ValidatorSet" {
+				sets = append(sets, arg)
+			}
+			for _, vs := range sets {
+				n++
+				shown = append(shown, truncate(vs.String(), 120))
+				if !isCommittedNextValSet(vs) {
+					ok = false
+				}
+			}
+		}
+		r.Check(ok && n > 0, "C07.1", FuncName(cs.Fn)+"#shift(next-validators)", w.InstrPos(cs.Instr),
+			"the set for the next height is the NextValidatorSet of the very header being committed: "+strings.Join(shown, " ; "))
 	}
 	// start-up loaders
 	for _, l := range []struct{ fn, want string }{
@@ -259,7 +299,7 @@ func runC07(r *Run) {
 			r.Fail("C07.1", l.fn, "", "function not found")
 			continue
 		}
-		a := w.A(fn)
+		a := w.AU(fn)
 		for i, c := range a.CallsTo("tmi.Kernel.loadInitialView") {
 			vs := a.sh.Of(CallArg(c, 4))
 			alts := []*Shape{vs}
@@ -287,7 +327,7 @@ func runC07(r *Run) {
 
 	// ---- C07.2
 	if fn := w.Fn("tmmirror.Mirror.HandleProposedHeader"); fn != nil {
-		a := w.A(fn)
+		a := w.AU(fn)
 		var n int
 		a.Instrs(func(in ssa.Instruction) {
 			c := callCommon(in)
@@ -305,7 +345,7 @@ func runC07(r *Run) {
 
 	// ---- C07.3
 	if fn := w.Fn("tsi.RoundLifecycle.CycleFinalization"); fn != nil {
-		a := w.A(fn)
+		a := w.AU(fn)
 		got := map[string]string{}
 		a.Instrs(func(in ssa.Instruction) {
 			if st, ok := in.(*ssa.Store); ok {
@@ -337,10 +377,14 @@ func runC07(r *Run) {
 			if fw.Kind != "store" {
 				continue
 			}
-			fnn := FuncName(fw.Fn)
-			a := w.A(fw.Fn)
+			// a helper split off from its only caller counts as that caller (values in the caller's terms)
+			owner := w.OwnerIn(fw.Fn, func(n string) bool {
+				return n == "tsi.RoundLifecycle.CycleFinalization" || n == "tmstate.StateMachine.sendInitialActionSet" || n == "tmstate.StateMachine.handleFinalization"
+			})
+			fnn := FuncName(owner)
+			a := w.AU(owner)
 			val := a.sh.Of(fw.Val).String()
-			con := fmt.Sprintf("write(rlc.%s)@%s", f, fnn)
+			con := fmt.Sprintf("write(rlc.%s)@%s", f, FuncName(fw.Fn))
 			ok := false
 			switch {
 			case fnn == "tsi.RoundLifecycle.CycleFinalization":
@@ -355,7 +399,7 @@ func runC07(r *Run) {
 	}
 	// start-up heights: Cur from h-2, Prev from h-3, PrevFinNext from h-1
 	if fn := w.Fn("tmstate.StateMachine.sendInitialActionSet"); fn != nil {
-		a := w.A(fn)
+		a := w.AU(fn)
 		got := map[string][]string{}
 		a.Instrs(func(in ssa.Instruction) {
 			if st, ok := in.(*ssa.Store); ok {
@@ -382,7 +426,7 @@ func runC07(r *Run) {
 
 	// ---- C07.4
 	if fn := w.Fn("tmstate.StateMachine.rejectMismatchedProposedHeaders"); fn != nil {
-		a := w.A(fn)
+		a := w.AU(fn)
 		n := 0
 		a.Instrs(func(in ssa.Instruction) {
 			c, ok := in.(*ssa.Call)
@@ -428,7 +472,7 @@ func runC07(r *Run) {
 		}
 	}
 	if fn := w.Fn("tmstate.StateMachine.recordProposedHeader"); fn != nil {
-		a := w.A(fn)
+		a := w.AU(fn)
 		ok := false
 		a.Instrs(func(in ssa.Instruction) {
 			if c, isCall := in.(*ssa.Call); isCall {
@@ -443,4 +487,36 @@ func runC07(r *Run) {
 		r.Check(ok, "C07.4", "tmstate.StateMachine.recordProposedHeader(sets)", w.Pos(fn.Pos()), "the proposed header carries CurValSet, PrevFinNextValSet and the previous app state hash")
 	}
 	r.Expect("C07.4", 8, "proposal filter obligations")
+}
+
+// isCommittedNextValSet: the value is <voting view proposed header>.Header.NextValidatorSet.
+func isCommittedNextValSet(v *Shape) bool {
+	alts := []*Shape{v}
+	if v.K == "phi" {
+		alts = v.A
+	}
+	for _, alt := range alts {
+		b, ok := Match("$ph.Header.NextValidatorSet", alt)
+		if !ok || !strings.Contains(b["$ph"].String(), ".Voting.RoundView.ProposedHeaders[") {
+			return false
+		}
+	}
+	return len(alts) > 0
+}
+
+// paramRooted: v is p<i> or p<i>.f.g ; returns i and the field path.
+func paramRooted(v *Shape) (int, []string, bool) {
+	var rest []string
+	for v.K == "fld" && len(v.A) == 1 {
+		rest = append([]string{v.S}, rest...)
+		v = v.A[0]
+	}
+	if v.K != "param" {
+		return 0, nil, false
+	}
+	i, err := strconv.Atoi(strings.TrimPrefix(v.S, "p"))
+	if err != nil {
+		return 0, nil, false
+	}
+	return i, rest, true
 }
